@@ -1,7 +1,8 @@
 (* C15 — archives cannot direct reads or writes outside the archive's directory.
    Model: Model/GoPath.v (path.Clean / IsAbs / Join / Dir as gopar calls them, component-wise) and
    par2's checkFilename. *)
-From Gopar Require Import Model.Base Model.GoPath Model.CRC Model.FS Model.Par1 Proofs.GoPathFacts Proofs.Par1Safety.
+From Gopar Require Import Model.Base Model.GoPath Model.CRC Model.FS Model.Par1 Model.Par2 Proofs.GoPathFacts Proofs.Par1Safety Proofs.Par2CreatePaths Proofs.CreateContain.
+From Coq Require Import List. Import ListNotations.
 Open Scope N_scope.
 
 (* a name accepted by checkFilename cleans (alone) to a non-empty stack of ordinary components:
@@ -54,3 +55,42 @@ Example C15_examples :
   check_filename [47; 97] = Err EMalformed /\                              (* "/a" *)
   check_filename [46; 46] = Err EMalformed /\ check_filename [] = Err EMalformed /\ check_filename [46] = Err EMalformed.
 Proof. vm_compute. repeat split; reflexivity. Qed.
+
+(* CREATE (PAR2), for every file system, fault schedule and spelling, from any absolute current directory:
+   every file Create reads IS one of the listed inputs (resolved), and it lies strictly below the directory
+   of the index file - its components are the directory's components plus a non-empty list of ordinary
+   components (no "..", no "."); inputs elsewhere are refused before any I/O.  Its writes target the index
+   path's own name with the suffixes .par2 / .volII+CC.par2 (Props/C02.v) *)
+Theorem C15_create_reads_are_inputs : forall md5 cwd parPath files p fs sched pth ok,
+  is_abs cwd = true ->
+  In (EvRead pth ok) (io_trace (snd (par2_create md5 cwd parPath files p (io_init fs sched)))) ->
+  exists f, In f files /\ pth = abs_path cwd f.
+Proof. exact create_read_events_are_inputs_cwd. Qed.
+Print Assumptions C15_create_reads_are_inputs.
+
+Theorem C15_create_reads_below_index_dir : forall md5 cwd parPath files p fs sched pth ok,
+  is_abs cwd = true ->
+  In (EvRead pth ok) (io_trace (snd (par2_create md5 cwd parPath files p (io_init fs sched)))) ->
+  let basedir := dir (abs_path cwd parPath) in
+  exists st, st <> [] /\ no_dotdot st = true /\ forallb comp_ok st = true /\
+    pth = render true (st ++ clean_stack true [] (split_slash basedir)) /\
+    comps_abs pth = comps_abs basedir ++ rev st /\
+    within basedir pth = true.
+Proof. exact create_reads_below_index_dir_cwd. Qed.
+Print Assumptions C15_create_reads_below_index_dir.
+
+(* CREATE (PAR1): writes go to the index path itself and its volume paths .p01 .. .pNN only; reads are the listed
+   inputs; every other path keeps its content - for every file system and fault schedule *)
+Theorem C15_par1_create_write_targets : forall md5 parPath files nvol fs sched pth d ok,
+  In (EvWrite pth d ok) (io_trace (snd (Par1.par1_create md5 parPath files nvol (io_init fs sched)))) ->
+  ext parPath = Par1.EXT_PAR /\
+  (pth = parPath \/ exists k, (1 <= k <= p1_nv nvol)%nat /\ pth = Par1.volume_path parPath (N.of_nat k)).
+Proof. exact par1_create_write_targets. Qed.
+Print Assumptions C15_par1_create_write_targets.
+
+Theorem C15_par1_create_inputs_untouched : forall md5 parPath files nvol fs sched q,
+  q <> parPath ->
+  (forall k, (1 <= k <= p1_nv nvol)%nat -> q <> Par1.volume_path parPath (N.of_nat k)) ->
+  fs_lookup (io_fs (snd (Par1.par1_create md5 parPath files nvol (io_init fs sched)))) q = fs_lookup fs q.
+Proof. exact par1_create_inputs_untouched. Qed.
+Print Assumptions C15_par1_create_inputs_untouched.
